@@ -1,7 +1,7 @@
 import HdVerif.Proofs.SegGeom
 import HdVerif.Proofs.SegGeomTie
-import HdVerif.Proofs.SegFrames
-import HdVerif.Proofs.SegTiles
+import HdVerif.Proofs.SegFrameLoop
+import HdVerif.Proofs.SegTileFrames
 /-! # C03  Derived images sit where the user placed them in space
 
 Property theorems only (helper lemmas: `Proofs/SegGeom.lean`; T3 lemmas of C04: `Proofs/TilingStd.lean`).
@@ -18,7 +18,7 @@ lists (frame index, output slot), `VolOut.aff` is the affine of the returned vol
 is C01, choice of segments C02. -/
 namespace HdVerif.C03
 open HdVerif HdVerif.Gen HdVerif.SegGeom HdVerif.SegGeom.V3 HdVerif.SegGeomLemmas HdVerif.TilingLemmas
-open HdVerif.SegFrames HdVerif.SegFramesLemmas HdVerif.SegTilesLemmas
+open HdVerif.SegFrameLoop HdVerif.SegFrameLoopLemmas HdVerif.SegTileFramesLemmas
 
 /-! ## 1. Segmentation from a volume reads back where the input put it -/
 
@@ -817,7 +817,7 @@ theorem from_attributes_uses_the_source (origin rowCos colCos : V3) (psRow psCol
     fromAttributes origin rowCos colCos psRow psCol sbs = SegGeomTie.fromAttributesGen origin rowCos colCos psRow psCol sbs :=
   SegGeomTie.fromAttributes_eq_gen origin rowCos colCos psRow psCol sbs
 
-/-! ## 8. The frames the constructor stores (`Model/SegFrames.lean`: `Segmentation.__init__`'s frame loop)
+/-! ## 8. The frames the constructor stores (`Model/SegFrameLoop.lean`: `Segmentation.__init__`'s frame loop)
 
 Which frames exist, in which order, with which PlanePositionSequence and DimensionIndexValues — for EVERY list of plane
 positions at pairwise different distances along the normal (planes of a volume, source planes in any order, explicit
